@@ -960,3 +960,87 @@ Example C04_version_splice_reachable :
   c04_class_t stale_cfg [] splice_es (splice_obs 75 (csum (res_body r 0))) (untimed splice_es) = 0%N /\
   c04_class_t stale_cfg [] splice_es (splice_obs 76 (csum (res_body r 0 ++ [7]))) (untimed splice_es) = 1%N.
 Proof. exact version_splice_reachable. Qed.
+
+(* ------------------------------------------------------------------------------------------------------------ *)
+(* Last round: blocks that do not continue what is held (seeded regression C04-11) and copies of datagrams of a
+   block-wise exchange on UDP (seeded regression C04-10).  Proofs: Blockwise/ProofsStale.v, Blockwise/ProofsUdp.v. *)
+From GoCoap Require Blockwise.ProofsStale Blockwise.ProofsUdp.
+From GoCoap Require Dedup.Model NoResp.BwModel.
+
+(* Append-only reassembly, for ANY block (no coherence assumption: the block may come from another transfer with
+   the same token, from another representation of a resource without ETag, from anywhere): processReceivedMessage
+   with a reassembly under way for the token and a block whose offset is NOT the number of bytes held - and that
+   does not announce another representation by a different ETag - hands nothing to the application and leaves the
+   reassembly entry exactly as it was (nothing rewritten, nothing cut off); or the entry is gone and the step is an
+   error (the refused restart of the response of a POST/PUT at block 0).  "Duplicated, stale, out-of-order ...
+   blocks never corrupt, truncate or extend a body."  C04-11 (off <= held) falsifies it. *)
+Theorem C04_stale_block_inert : forall app e r maxszx (isb1 : bool) sent b cm,
+  (mcode r =? GET) || (mcode r =? DELETE) = false ->
+  (if isb1 then mb1 r else mb2 r) = Some b ->
+  is_observe_response r = false ->
+  tget (receiving e) (mtok r) = Some cm ->
+  ProofsStale.same_representation r cm ->
+  bnum b * size (bszx b) <> blen (mbody cm) ->
+  let res := process_received_s app e r maxszx isb1 sent in
+  snd res = [] /\
+  (tget (receiving (fst (fst res))) (mtok r) = Some cm \/
+   (tget (receiving (fst (fst res))) (mtok r) = None /\ snd (fst res) = Fail)).
+Proof. exact ProofsStale.stale_block_inert. Qed.
+Print Assumptions C04_stale_block_inert.
+
+(* ... the reassembly step itself: what is held afterwards is what was held, extended by the block exactly when its
+   offset is the number of bytes held *)
+Theorem C04_reassembly_append_only : forall cm r off cm' appended,
+  ProofsStale.same_representation r cm -> reasm cm r off = (cm', appended) ->
+  (appended = true /\ off = blen (mbody cm) /\ mbody cm' = mbody cm ++ mbody r) \/ (appended = false /\ cm' = cm).
+Proof. exact ProofsStale.reasm_append_only. Qed.
+Print Assumptions C04_reassembly_append_only.
+
+(* ... a stale LAST block (M = 0) strictly inside the bytes held never completes the transfer *)
+Theorem C04_stale_last_block_never_completes : forall app e r maxszx (isb1 : bool) sent b cm,
+  (mcode r =? GET) || (mcode r =? DELETE) = false ->
+  (if isb1 then mb1 r else mb2 r) = Some b -> bmore b = false ->
+  is_observe_response r = false ->
+  tget (receiving e) (mtok r) = Some cm ->
+  ProofsStale.same_representation r cm ->
+  bnum b * size (bszx b) < blen (mbody cm) ->
+  snd (process_received_s app e r maxszx isb1 sent) = [].
+Proof. exact ProofsStale.stale_last_block_never_completes. Qed.
+Print Assumptions C04_stale_last_block_never_completes.
+
+(* Non-vacuity / the seed's history on the model: a download of 75 bytes (no ETag) completes, the resource gets new
+   content (93 bytes), the token is used again; while A holds 80 bytes the last block of the FIRST download (NUM 4,
+   M = 0, 11 old bytes, offset 64) is replayed: not taken (event 28), the download ends with exactly the 93 new
+   bytes, class 0. *)
+Example C04_stale_last_block_history :
+  (exists o m, nth_error (model_obs_t ProofsStale.staleblk_cfg ProofsStale.staleblk_es) 28 = Some o /\ o_side o = 0 /\
+               o_in o = Some m /\ pb2 m = Some (0, 4, false) /\ plen m = 11 /\ o_deliv o = [] /\ o_err o = 0) /\
+  (exists o d, In o (model_obs_t ProofsStale.staleblk_cfg ProofsStale.staleblk_es) /\ o_ret o = [(0, 0)] /\ o_deliv o = [d] /\
+               plen d = 93 /\ psum d = csum (res_body (R 11 75 false 42) 6)) /\
+  SpecTime.c04_class_t ProofsStale.staleblk_cfg [] ProofsStale.staleblk_es
+    (model_obs_t ProofsStale.staleblk_cfg ProofsStale.staleblk_es) (untimed ProofsStale.staleblk_es) = 0%N.
+Proof. exact ProofsStale.stale_last_block_history. Qed.
+
+(* On a datagram transport (udp/client.Conn with the block-wise layer, model NoResp/BwModel.v [bstep] = Process ->
+   checkResponseCache -> blockwise.Handle -> handler -> processResponse -> addResponseToCache): for EVERY history of
+   request datagrams before (pre), between (evs) and after - any tokens, codes, options, block numbers, handler
+   behaviours, message IDs -: once a reply [w] was written for a confirmable / non-confirmable request with message
+   ID m - whatever it carries: a 2.31 Continue for a block, the first block of a block-wise response, a plain
+   response -, every later datagram of that type with message ID m is absorbed: blockwise.Handle and the handler
+   do not run (no call, the block-wise caches unchanged) and the answer has the code, token, options and payload of
+   [w] under the copy's message ID.  So the body of a request whose response is block-wise reaches the application
+   exactly once however often its datagram arrives, and the retransmission gets block 0 again.  C04-10 (a reply with
+   Block2 is not stored) falsifies it. *)
+Theorem C04_udp_copy_absorbed : forall c own0 pre e w evs e',
+  let s1 := fst (BwModel.brun c (BwModel.binit own0) pre) in
+  let s2 := fst (BwModel.bstep c s1 e) in
+  let s3 := fst (BwModel.brun c s2 evs) in
+  Dedup.Model.is_cacheable_typ (BwModel.e_typ e) = true ->
+  BwModel.bo_out (snd (BwModel.bstep c s1 e)) = [w] ->
+  BwModel.e_typ e' = BwModel.e_typ e -> BwModel.e_mid e' = BwModel.e_mid e ->
+  BwModel.bo_call (snd (BwModel.bstep c s3 e')) = None /\
+  BwModel.layer (fst (BwModel.bstep c s3 e')) = BwModel.layer s3 /\
+  exists r, BwModel.bo_out (snd (BwModel.bstep c s3 e')) = [r] /\ ProofsUdp.same_reply r w /\
+            Dedup.Model.w_mid r = BwModel.e_mid e'.
+Proof. exact ProofsUdp.udp_copy_absorbed. Qed.
+Print Assumptions C04_udp_copy_absorbed.
